@@ -83,10 +83,20 @@ COMPLETE = [[[0], [1, 2], [3]], [[3], [2], [1], [0]], [[1], [0, 3], [2]]]
 INCOMPLETE = [[[0], [1, 2]], [[3], [2], [0]], [[1], [3]], []]
 
 
-def outcome(alg, D, s):
+# datasets that BECOME complete: built incomplete (element 4 in one ranking only, possibly an empty ranking), then given a past
+# (views read, algorithms run) and filtered in place - it is then exactly COMPLETE
+COMPLETE_BY_HISTORY = [([[[0], [1, 2], [3], [4]], [[3], [2], [1], [0]], [[1], [0, 3], [2]]], {"remove": [4], "rate": None, "remove_empty": False}),
+                       ([[[0], [1, 2], [3], [4]], [[3], [2], [1], [0]], [], [[1], [0, 3], [2]]], {"remove": [4], "rate": None, "remove_empty": True}),
+                       ([[[0], [1, 2], [3], [4]], [[3], [2], [1], [0]], [[1], [0, 3], [2]]], {"remove": [], "rate": 0.5, "remove_empty": False})]
+
+
+def outcome(alg, D, s, past=None):
     import random
     random.seed(5)
     ds, sc = mk(D, s)
+    if past is not None:
+        give_a_past(ds, past, sc)
+        random.seed(5)
     try:
         cons = alg.compute_consensus_rankings(ds, sc, True)
         univ = {e.value for e in ds.universe}
@@ -118,6 +128,8 @@ class Applic(Suite):
             chosen = sch if tier == "thorough" else core + [x for x in rng.sample(sch, 14) if x not in core]
             for s in chosen:
                 cases.append({"alg": t, "s": s})
+            for k, s in enumerate(core[::3] + [gen.GENERIC]):         # complete data that has a past (became complete by an in-place removal)
+                cases.append({"alg": t, "s": s, "hist": 1 + k % 3})
         return cases
 
     def run(self, case):
@@ -128,7 +140,9 @@ class Applic(Suite):
             pred = 1 if p is True else 0 if p is False else 2
         except Exception:
             pred = 2
-        return {"pred": pred, "oc": outcome(build(case["alg"]), COMPLETE, case["s"]), "oi": outcome(build(case["alg"]), INCOMPLETE, case["s"])}
+        oc = outcome(build(case["alg"]), COMPLETE_BY_HISTORY[case["hist"] - 1][0], case["s"], COMPLETE_BY_HISTORY[case["hist"] - 1][1]) if case.get("hist") else \
+            outcome(build(case["alg"]), COMPLETE, case["s"])
+        return {"pred": pred, "oc": oc, "oi": outcome(build(case["alg"]), INCOMPLETE, case["s"])}
 
     def term(self, case, out):
         return f"({alg_term(case['alg'])}, {scheme_term(case['s'])}, {z(out['pred'])}, {z(out['oc'])}, {z(out['oi'])})"
